@@ -117,3 +117,222 @@ register(
     assumptions=["virtual clock: asyncio timers fire not before their deadline; equal deadlines in PRNG order",
                  "thread pre-emption only at line boundaries in repo code"],
 )
+
+
+# ===========================================================================
+# core sequential families (C01, C02, C03, C10, C11, C16 share the generator)
+# ===========================================================================
+
+def seq_ops(rng, mg, n_lo=4, n_hi=12, p_can=0.0, p_adv=0.0, extra_events=()):
+    ops = [{"op": "start"}]
+    evs = list(mg.events) + list(extra_events)
+    for _ in range(rng.randint(n_lo, n_hi)):
+        r = rng.random()
+        if r < p_can:
+            ops.append({"op": "can", "event": rng.choice(evs + ["E_unknown"])})
+        elif r < p_can + p_adv:
+            ops.append({"op": "advance", "dt": rng.choice((10, 20, 30, 50, 100)) * MS})
+            ops.append({"op": "obs", "label": "adv"})
+        else:
+            ev = rng.choice(evs) if rng.random() > 0.04 else "E_unknown"
+            ops.append({"op": "send", "event": ev, "tag": len(ops)})
+    return ops
+
+
+def gen_core(engine, salt, ops_kw=None, **profkw):
+    def g(seed):
+        rng = _rng(seed, salt)
+        mg = MachineGen(rng, prof(**profkw))
+        out = mg.build()
+        ops = seq_ops(rng, mg, **(ops_kw or {}))
+        return _base(seed, engine, out, ops)
+    return g
+
+
+def gen_c01_async_interleave(seed):
+    """Async: yielding entry/exit/transition actions, a second client sending while start() descends."""
+    rng = _rng(seed, 101)
+    mg = MachineGen(rng, prof(p_async_act=0.35, p_raise=0.25, p_extra_entry=0.5, p_history=0.2, p_parallel=0.2))
+    out = mg.build()
+    ops = [{"op": "start", "wait": False, "obs": False, "client": 0}]
+    for i in range(rng.randint(1, 3)):
+        ops.append({"op": "send", "event": rng.choice(mg.events), "tag": 100 + i, "client": 1, "wait": False, "obs": False})
+    ops.append({"op": "settle"})
+    ops.append({"op": "obs", "label": "after-start"})
+    for _ in range(rng.randint(2, 8)):
+        ops.append({"op": "send", "event": rng.choice(mg.events), "tag": len(ops), "client": rng.randrange(2)})
+    return _base(seed, "async", out, ops)
+
+
+_C01_COMMON = dict(p_history=0.25, p_parallel=0.2, p_final=0.15, p_always=0.15, p_raise=0.15)
+
+register(
+    "C01",
+    families=[
+        ("core_sync", 3, gen_core("sync", 11, **_C01_COMMON)),
+        ("core_async", 3, gen_core("async", 12, **_C01_COMMON)),
+        ("core_pure", 2, gen_core("pure", 13, **_C01_COMMON)),
+        ("hist_parallel_sync", 1, gen_core("sync", 14, hist_parallel=True, p_parallel=0.35, w_target={"history": 6}, **{k: v for k, v in _C01_COMMON.items() if k != "p_parallel"})),
+        ("root_target_sync", 1, gen_core("sync", 15, w_target={"root": 2}, **_C01_COMMON)),
+        ("timers_services_async", 2, gen_core("async", 16, ops_kw={"p_adv": 0.3}, p_after=0.3, p_invoke=0.25, svc_kinds=("sync", "coro"), **_C01_COMMON)),
+        ("async_interleave", 2, gen_c01_async_interleave),
+    ],
+    oracle=O.oracle_c01,
+    level="exploration",
+    rule=("random machines (compound/parallel/final/history, cross-branch/ancestor/descendant/self/history/targetless targets, always, raise, "
+          "onDone, timers, services) x random event sequences on sync, async and pure; legality predicate evaluated on every observation "
+          "(return of start/send, async quiescence, every on_transition hook's to_states and live configuration, every subscriber call, "
+          "snapshots, PureSnapshots). Non-trivial = >= 3 transitions; distinct = hash of the (worker, event, transition) sequence"),
+)
+
+_C03_COMMON = dict(p_history=0.2, p_parallel=0.25, p_final=0.12, p_always=0.12, p_raise=0.12, p_extra_entry=0.3)
+
+register(
+    "C03",
+    families=[
+        ("core_sync", 3, gen_core("sync", 31, **_C03_COMMON)),
+        ("core_async", 3, gen_core("async", 32, **_C03_COMMON)),
+        ("async_yield", 2, gen_core("async", 33, p_async_act=0.4, **_C03_COMMON)),
+        ("sync_timers", 1, gen_core("sync", 34, ops_kw={"p_adv": 0.3}, p_after=0.3, **_C03_COMMON)),
+    ],
+    oracle=O.oracle_c03,
+    level="exploration",
+    rule=("random machines x event sequences; per executed transition the marker stream is checked for exit<transition<entry order, "
+          "child-before-ancestor exits, ancestor-before-child entries, triggering-event identity (type + payload tag), running "
+          "entry/exit tally == live configuration at every on_transition, no entry while active, and frame (nothing outside "
+          "subtree(LCA(source,target))). Non-trivial = >= 3 transitions"),
+)
+
+_C02_COMMON = dict(p_history=0.1, p_parallel=0.3, p_final=0.08, p_always=0.08, p_raise=0.1, p_two=0.45, p_guard=0.5,
+                   p_trans=0.55, w_target={"none": 3, "ancestor": 2, "descendant": 2})
+
+register(
+    "C02",
+    families=[
+        ("sel_sync", 3, gen_core("sync", 21, ops_kw={"p_can": 0.25}, **_C02_COMMON)),
+        ("sel_async", 3, gen_core("async", 22, ops_kw={"p_can": 0.25}, **_C02_COMMON)),
+        ("sel_timers_async", 1, gen_core("async", 23, ops_kw={"p_can": 0.15, "p_adv": 0.25}, p_after=0.3, p_invoke=0.2, svc_kinds=("sync", "coro"), **_C02_COMMON)),
+        ("sel_timers_sync", 1, gen_core("sync", 24, ops_kw={"p_can": 0.15, "p_adv": 0.25}, p_after=0.3, p_invoke=0.2, **_C02_COMMON)),
+    ],
+    oracle=O.oracle_c02,
+    level="exploration",
+    rule=("machines biased to several candidates per event, guarded child over unguarded parent, handlers on ancestors shared by "
+          "regions, targetless candidates; every processed event (external, raised, after, done.state, done.invoke) is compared with an "
+          "executable transcription of the selection rule evaluated on the configuration (from entry/exit markers) and context "
+          "(reconstructed from recorded effects) at the moment the event was received; can() compared with the same reference; "
+          "frame condition for unhandled events via observation (configuration, context, history, output, status, task/thread census) "
+          "before vs after. Non-trivial = >= 3 transitions"),
+)
+
+
+# ===========================================================================
+# C04 - run-to-completion, lossless, ordered
+# ===========================================================================
+
+def gen_c04(engine, mode):
+    def g(seed):
+        rng = _rng(seed, 40 + len(mode))
+        asyncish = engine == "async"
+        mi = (3, 12) if mode == "burst" else (20, 60)
+        mg = MachineGen(rng, prof(root_final=False, p_final=0.05, p_raise=0.3, p_always=0.1, p_extra_entry=0.4,
+                                  p_async_act=(0.3 if asyncish else 0.0), p_slow_act=0.1, max_iterations=mi,
+                                  p_after=(0.25 if mode != "burst" else 0.0), n_states=(3, 8), p_history=0.1))
+        out = mg.build()
+        nclients = rng.choice((1, 2, 3, 4)) if mode != "burst" else rng.choice((1, 2))
+        ops = [{"op": "start", "t": 0, "client": 0, "wait": not (asyncish and rng.random() < 0.5), "obs": False}]
+        t = 0
+        tag = 0
+        during_start = asyncish and not ops[0]["wait"]
+        for _ in range(rng.randint(3, 10)):
+            if not during_start or rng.random() < 0.6:
+                t = _lattice_time(rng, t)
+            c = rng.randrange(nclients)
+            if mode == "burst" or rng.random() < 0.2:
+                lim = out["machine"]["maxIterations"]
+                n = rng.choice((2, 3, max(1, lim - 1), lim, lim + 1, lim + 3)) if mode == "burst" else rng.randint(2, 4)
+                evs = []
+                for _j in range(n):
+                    tag += 1
+                    evs.append({"type": rng.choice(mg.events), "tag": tag, "p": c})
+                ops.append({"op": "send_events", "events": evs, "t": t, "client": c, "wait": False, "obs": False, "tie": "before"})
+            else:
+                tag += 1
+                ops.append({"op": "send", "event": rng.choice(mg.events), "tag": tag, "p": c, "t": t, "client": c,
+                            "wait": False, "obs": False, "tie": rng.choice(("before", "after"))})
+        sc = _base(seed, engine, out, ops, horizon=t + 500 * MS)
+        if engine == "sync" and mode == "threads":
+            r = rng.random()
+            if r < 0.6:
+                sc["sched"]["preempt"] = sorted(rng.sample(range(1, 6000), rng.randint(1, 3)))
+            if r > 0.4:
+                sc["sched"]["noise"] = rng.choice((0.001, 0.005, 0.02))
+        return sc
+    return g
+
+
+register(
+    "C04",
+    families=[("async_multi", 4, gen_c04("async", "multi")), ("async_burst", 2, gen_c04("async", "burst")),
+              ("sync_seq", 2, gen_c04("sync", "multi")), ("sync_threads", 3, gen_c04("sync", "threads")),
+              ("sync_burst", 2, gen_c04("sync", "burst"))],
+    oracle=O.oracle_c04,
+    stats=O.stats_c04,
+    level="exploration",
+    rule=("1-4 producers (client tasks/threads, timers, raise actions) sending uniquely tagged events at lattice instants, single sends "
+          "and send_events bursts below/at/above maxIterations, sends while start() is still descending, yielding and slow actions, "
+          "line-level pre-emption for the sync engine; history checked for exactly-once receipt, per-producer order, single worker per "
+          "macrostep and no action running for an event other than the one being processed. Non-trivial = >= 3 events received"),
+    nontrivial=lambda sc, r: sum(1 for x in r.trace if x[3] == "recv") >= 3,
+)
+
+
+# ===========================================================================
+# C09 - invoked services
+# ===========================================================================
+
+def gen_c09(engine, mode):
+    def g(seed):
+        rng = _rng(seed, 90 + len(mode))
+        asyncish = engine == "async"
+        mg = MachineGen(rng, prof(n_states=(3, 8), max_depth=rng.choice((2, 3)), p_invoke=0.5,
+                                  svc_kinds=(("coro", "coro", "sync") if asyncish else ("sync",)),
+                                  events=3, p_trans=0.5, p_history=0.05, p_parallel=0.12, p_always=0.05, p_raise=0.05,
+                                  p_slow_act=0.1, p_async_act=(0.1 if asyncish else 0.0), root_final=False, p_final=0.05,
+                                  w_target={"none": 1, "self_re": 2, "sibling": 6, "any": 4}))
+        out = mg.build()
+        ops = [{"op": "start", "t": 0}]
+        t = 0
+        for _ in range(rng.randint(3, 10)):
+            t = _lattice_time(rng, t)
+            if mode == "seq":
+                ops.append({"op": "send", "event": rng.choice(mg.events), "t": t, "tag": len(ops), "tie": rng.choice(("before", "after"))})
+            else:
+                for _b in range(rng.choice((1, 2, 3))):
+                    ops.append({"op": "send", "event": rng.choice(mg.events), "t": t, "tag": len(ops), "tie": "before",
+                                "wait": False, "obs": False, "client": rng.randrange(2)})
+                if rng.random() < 0.4:
+                    ops.append({"op": "settle"})
+                    ops.append({"op": "obs", "label": "mid"})
+        sc = _base(seed, engine, out, ops, horizon=t + 400 * MS, post_stop=200 * MS)
+        if mode == "stop":
+            ts = _lattice_time(rng, max(0, t - 50 * MS))
+            sc["ops"].append({"op": "stop", "t": max(ts, t), "tie": rng.choice(("before", "after"))})
+        return sc
+    return g
+
+
+register(
+    "C09",
+    families=[("svc_async_seq", 3, gen_c09("async", "seq")), ("svc_async_burst", 3, gen_c09("async", "burst")),
+              ("svc_async_stop", 1, gen_c09("async", "stop")),
+              ("svc_sync_seq", 2, gen_c09("sync", "seq")), ("svc_sync_burst", 1, gen_c09("sync", "burst"))],
+    oracle=O.oracle_c09,
+    stats=O.stats_c09,
+    level="exploration",
+    rule=("machines whose states invoke sync callables / coroutines with per-activation plans (duration on the 10 ms lattice, return | raise | "
+          "never), each result unique to (service, activation); events, bursts, slow actions and stop() placed around completion instants; "
+          "history checked for one start per activation with the declared input, attribution of every handled completion to the activation "
+          "that started it, done<->return / error<->raise, error status on unhandled failure, and a task census after exit and after stop(). "
+          "Non-trivial = >= 1 service call and >= 3 transitions"),
+    nontrivial=lambda sc, r: sum(1 for x in r.trace if x[3] == "svc-call") >= 1 and sum(1 for x in r.trace if x[3] == "trans") >= 3,
+)
